@@ -7,8 +7,9 @@
      * the PLAN-LEVEL verdict equation for ONE `sometime phi` constraint with its monitoring fluent ([C06_LA_tcr_sometime_plan]).
      * the PLAN-LEVEL verdict equation for ONE `at-most-once phi` constraint ([C06_LA_tcr_amo_plan]).
      * the PLAN-LEVEL verdict equation for ONE `sometime-before phi psi` constraint ([C06_LA_tcr_sb_plan]).
-   NOT proved (kept as [C06_LA_tcr_plan_goal]): the plan-level verdict equation for sometime-after and for several
-   constraints at once, the link to SimCheck.valid (needs the
+     * the PLAN-LEVEL verdict equation for ONE `sometime-after phi psi` constraint ([C06_LA_tcr_sa_plan]).
+   NOT proved (kept as [C06_LA_tcr_plan_goal]): the plan-level verdict equation for several constraints at once, the link
+   to SimCheck.valid (needs the
    embedding of the monitor into problems with the extra monitoring fluents). *)
 From Coq Require Import List ZArith NArith QArith Qcanon Bool.
 Import ListNotations.
@@ -464,6 +465,91 @@ Proof.
   - split; reflexivity.
   - intros f x Hf. unfold TcrSb.s0'. replace (f =? 9)%N with false; [reflexivity|]. symmetry. apply N.eqb_neq. exact Hf.
   - reflexivity.
+  - reflexivity.
+Qed.
+
+(* PLAN LEVEL for one `sometime-after phi psi` constraint (hypotheses as in C06_LA_tcr_sb_plan; fk = mon 0 is the
+   monitoring fluent "hold-0", initially "psi or not phi in s0").  The compiled problem - the actions that touch the
+   constraint got the effects `if simplify(And(R_phi, Not R_psi)) then fk := false` and `if R_psi then fk := true`; the goal
+   got the conjunct fk - accepts exactly the valid plans of P at whose end no obligation is pending ([sa_bit]: the bit is
+   set when psi holds, reset when phi holds without psi, kept otherwise; = SimCheck's mon_sa on the visited states). *)
+Theorem C06_LA_tcr_sa_plan :
+  forall (smp sub0 : expr -> expr) (mon : nat -> N) (phi psi : expr) (P : problem) (G : state -> Prop),
+    smp_exact smp -> unique_ids P -> gproblem P = true ->
+    gform phi = true -> gbool P phi = true -> gform psi = true -> gbool P psi = true ->
+    tcr_fresh1 smp (mon 0) P phi = true -> tcr_fresh1 smp (mon 0) P psi = true ->
+    (forall s aid a args t, G s -> lookup_action P aid = Some a -> spec_step false P s a args = Some t -> G t) ->
+    (forall s aid a, G s -> lookup_action P aid = Some a -> reg_ok P s a = true) ->
+    (forall s, G s -> gdef s phi = true) -> (forall s, G s -> gdef s psi = true) ->
+    forall P', tcr_compile smp sub0 mon [ESometimeAfter phi psi] P = Some P' ->
+    forall s0 s0' pi, G s0 -> agree_off (mon 0) s0 s0' ->
+      s0' (mon 0) [] = Some (VBool (holds false (mk_interp P s0 []) psi || negb (holds false (mk_interp P s0 []) phi))) ->
+      valid_plan false P' s0' pi =
+      valid_plan false P s0 pi &&
+      sa_bit P phi psi (holds false (mk_interp P s0 []) psi || negb (holds false (mk_interp P s0 []) phi)) s0 pi.
+Proof.
+  intros smp sub0 mon phi psi P G H1 H2 H3 H4 H5 H6 H7 H8 H9 H10 H11 H12 H13 P1 H14 s0 s0' pi H15 H16 H17.
+  exact (tcr_sa_plan smp sub0 mon phi psi P G H1 H2 H3 H4 H5 H6 H7 H8 H9 H10 H11 H12 H13 P1 H14 s0 s0' pi H15 H16 H17).
+Qed.
+Print Assumptions C06_LA_tcr_sa_plan.
+
+Module TcrSa.
+  Definition bfd (f : N) : fdecl := {| fd_id := f; fd_sig := []; fd_ty := FBool |}.
+  Definition fl0 (f : N) : expr := EFluent f [].
+  Definition setf (f : N) (b : bool) : action :=
+    {| a_params := []; a_pre := [];
+       a_effs := [{| e_fl := f; e_args := []; e_val := EBool b; e_cond := EBool true; e_kind := KAssign; e_vars := [];
+                     e_isbool := true |}] |}.
+  (* fluents f (0), g (1), h (2); actions 0: f on, 1: g on, 2: goal h; constraint sometime-after f g; all false initially *)
+  Definition P0 : problem :=
+    {| p_objs := []; p_ifun := []; p_fluents := [bfd 0; bfd 1; bfd 2];
+       p_actions := [(0%N, setf 0 true); (1%N, setf 1 true); (2%N, setf 2 true)]; p_goals := [fl0 2]; p_invs := [] |}.
+  Definition idf (e : expr) : expr := e.
+  Definition mon0 (k : nat) : N := 9%N.
+  Definition s0 : state := fun f _ => Some (VBool false).
+  Definition s0' : state := fun f a => if (f =? 9)%N then Some (VBool true) else s0 f a.
+  Definition P0' : problem := match tcr_compile idf idf mon0 [ESometimeAfter (fl0 0) (fl0 1)] P0 with Some x => x | None => P0 end.
+  Definition G0 (s : state) : Prop := gdef s (fl0 0) = true /\ gdef s (fl0 1) = true.
+End TcrSa.
+
+Example C06_LA_tcr_sa_plan_nonvacuous :
+  (forall pi, valid_plan false TcrSa.P0' TcrSa.s0' pi =
+              valid_plan false TcrSa.P0 TcrSa.s0 pi && sa_bit TcrSa.P0 (TcrSa.fl0 0) (TcrSa.fl0 1) true TcrSa.s0 pi) /\
+  valid_plan false TcrSa.P0 TcrSa.s0 [(0%N, []); (2%N, [])] = true /\
+  valid_plan false TcrSa.P0' TcrSa.s0' [(0%N, []); (2%N, [])] = false /\
+  valid_plan false TcrSa.P0' TcrSa.s0' [(0%N, []); (1%N, []); (2%N, [])] = true.
+Proof.
+  split; [|repeat split; vm_compute; reflexivity].
+  intros pi.
+  assert (Hact : forall aid a, lookup_action TcrSa.P0 aid = Some a ->
+            a = TcrSa.setf 0 true \/ a = TcrSa.setf 1 true \/ a = TcrSa.setf 2 true).
+  { intros aid a H. unfold lookup_action in H. cbn [TcrSa.P0 p_actions lookupN] in H.
+    destruct (aid =? 0)%N; [inversion H; auto|]. destruct (aid =? 1)%N; [inversion H; auto|].
+    destruct (aid =? 2)%N; [inversion H; auto | discriminate]. }
+  change true with (holds false (mk_interp TcrSa.P0 TcrSa.s0 []) (TcrSa.fl0 1) ||
+                    negb (holds false (mk_interp TcrSa.P0 TcrSa.s0 []) (TcrSa.fl0 0))) at 1.
+  apply (C06_LA_tcr_sa_plan TcrSa.idf TcrSa.idf TcrSa.mon0 (TcrSa.fl0 0) (TcrSa.fl0 1) TcrSa.P0 TcrSa.G0).
+  - intros e I. reflexivity.
+  - unfold unique_ids. cbn. repeat constructor; cbn; intuition discriminate.
+  - reflexivity.
+  - reflexivity.
+  - reflexivity.
+  - reflexivity.
+  - reflexivity.
+  - vm_compute. reflexivity.
+  - vm_compute. reflexivity.
+  - intros s aid a args t [Gs1 Gs2] Hlk Hst.
+    assert (Hga : gaction TcrSa.P0 a = true) by (destruct (Hact aid a Hlk) as [-> | [-> | ->]]; reflexivity).
+    assert (Hrg : reg_ok TcrSa.P0 s a = true) by (destruct (Hact aid a Hlk) as [-> | [-> | ->]]; reflexivity).
+    destruct (regression_step TcrSa.P0 s a args t (TcrSa.fl0 0) Hga Hrg Hst eq_refl eq_refl Gs1) as (_ & _ & D1).
+    destruct (regression_step TcrSa.P0 s a args t (TcrSa.fl0 1) Hga Hrg Hst eq_refl eq_refl Gs2) as (_ & _ & D2).
+    unfold TcrSa.G0. unfold isB in D1, D2. cbn in D1, D2. cbn. split; assumption.
+  - intros s aid a _ Hlk. destruct (Hact aid a Hlk) as [-> | [-> | ->]]; reflexivity.
+  - intros s [Gs _]. exact Gs.
+  - intros s [_ Gs]. exact Gs.
+  - reflexivity.
+  - split; reflexivity.
+  - intros f x Hf. unfold TcrSa.s0'. replace (f =? 9)%N with false; [reflexivity|]. symmetry. apply N.eqb_neq. exact Hf.
   - reflexivity.
 Qed.
 
